@@ -89,6 +89,18 @@ package limit
 //@   ensures implies(old(lim.redisAlive) != 0 && scriptErr != nil && result, result == localVerdict)
 //@   ensures implies(old(lim.redisAlive) != 0 && scriptErr == nil && result, int64(scriptResp.(int64)) == 1 || (result == localVerdict))
 
+// Recovery: the monitor asks the store at every tick and goes back to the shared bucket at the first tick at which the store
+// answers (stUp = what the store would answer at the tick being handled; the loop goes round again only if that was "no").
+//@ func (lim *TokenLimiter) waitForRedis
+//@   property C03
+//@   flag nolock
+//@   requires lim.store != nil
+//@   ghost at entry: stUp = false
+//@   ghost at begin loop 0: stUp = redisUp[lim.store]
+//@   ensures !lim.monitorStarted && implies(stUp, lim.redisAlive == 1)
+//@   loop 0: modifies redisUp, stUp
+//@   loop 0: invariant !stUp && lim.store != nil
+
 //@ func (lim *TokenLimiter) startMonitor
 //@   property C03
 //@   flag nolock
